@@ -24,6 +24,10 @@ returns a shape tag and a message.
   idle-timeout-despite-progress      an idle timeout only a full ProgressTimeout after the last successful result
   request-never-issued-with-peer-available
                                      at rest, no request of a live batch waits while a connected peer is free
+  request-answered-twice             a request is answered successfully at most once: the worker of a connection that
+                                     was overtaken by a reconnect under its address still delivers the one result it
+                                     owes (`lateResult`); a request that has already been reported finished OK must
+                                     not be finished a second time (each such report is counted towards the batch)
 -/
 import Neutrino.Model.Dispatcher
 namespace Neutrino.Disp
@@ -37,6 +41,8 @@ inductive Obs where
   | exited (p : Nat)
   | dispatched (p idx : Nat) (r : Req)
   | result (p idx : Nat) (e : Err)
+  | lateResult (p idx : Nat) (e : Err)       -- reported by the worker of an EARLIER connection under address p (a newer
+                                              -- connection has taken the address over while it held the job)
   | quit
   | final (counts : List (Nat × Nat))
   | hardPassed (b : Nat)                      -- the hard deadline the harness scripted for batch b has passed
@@ -57,6 +63,7 @@ structure OSt where
   okReq     : List Req := []
   idxOf     : List (Req × Nat) := []
   held      : List (Nat × Nat × Req) := []
+  oldHeld   : List (Nat × Nat × Req) := []   -- jobs held by workers whose address was taken over by a newer connection
   queued    : List Req := []
   lastOrder : List (Nat × Nat × Bool) := []
   quit      : Bool := false
@@ -140,7 +147,10 @@ def obsStep (o : OSt) : Obs → OSt × List Fail
               score := o.score.filter (fun x => !(x.1 == p)),   -- no claim across a disconnect
               held := o.held.filter (fun x => !(x.1 == p)) }, [])
   | .connected p =>
+    -- a worker of the address that still holds a job and has not exited keeps it: it is no longer the worker
+    -- the address denotes
     ({ o with conn := p :: o.conn.filter (fun x => !(x == p)),
+              oldHeld := o.held.filter (fun x => x.1 == p) ++ o.oldHeld,
               held := o.held.filter (fun x => !(x.1 == p)) }, [])
   | .quiescent =>
     let o := { o with lastWake := none }
@@ -193,10 +203,24 @@ def obsStep (o : OSt) : Obs → OSt × List Fail
       -- that has ended is discarded and moves nothing
       let exp : Option (Nat × Nat) := (o.score.lookup p).map (fun v => (p, if hasVerdict o r.1 then v else movedScore v e))
       let o1 := { o with held := o.held.filter (fun x => !(x.1 == p)), lastRes := some r.1, expect := exp }
+      let f2 : List Fail := if e == .ok && o.okReq.contains r then
+        [("request-answered-twice", s!"request {r.1}.{r.2} was reported finished OK by worker {p} although it had already been answered successfully")] else []
       match e with
-      | .ok => ({ o1 with okReq := r :: o1.okReq }, f)
+      | .ok => ({ o1 with okReq := r :: o1.okReq }, f ++ f2)
       | .canceled => (o1, f)
       | _ => ({ o1 with queued := o1.queued ++ [r] }, f)
+  | .lateResult p idx e =>
+    match o.oldHeld.find? (fun x => x.1 == p && x.2.1 == idx) with
+    | none => (o, [("result-unknown", s!"an earlier worker of address {p} reported job {idx} which it did not hold")])
+    | some (_, _, r) =>
+      let exp : Option (Nat × Nat) := (o.score.lookup p).map (fun v => (p, if hasVerdict o r.1 then v else movedScore v e))
+      let o1 := { o with oldHeld := o.oldHeld.filter (fun x => !(x.1 == p && x.2.1 == idx)), lastRes := some r.1, expect := exp }
+      let f2 : List Fail := if e == .ok && o.okReq.contains r then
+        [("request-answered-twice", s!"request {r.1}.{r.2} was reported finished OK by the overtaken worker of address {p} although it had already been answered successfully (the request was issued again while that worker still held it)")] else []
+      match e with
+      | .ok => ({ o1 with okReq := r :: o1.okReq }, f2)
+      | .canceled => (o1, [])
+      | _ => ({ o1 with queued := o1.queued ++ [r] }, [])
   | .scoreAfter p sc =>
     let f : List Fail := match o.expect with
       | some (q, v) => if q == p && v != sc then
